@@ -2,7 +2,7 @@
 # usage: tools/seedtest.sh <CHECK-ID> <patch.diff> [tier]
 # Applies a seeded change to /repo, runs the check, and undoes the change straight afterwards.
 id=$1; patch=$2; tier=${3:-quick}
-cd /verif
+cd /verif; exec 9>/tmp/repo.lock; flock 9
 p=$(realpath "$patch")
 git -C /repo apply --recount "$p" 2>/dev/null || (cd /repo && patch -p1 -F3 -s --no-backup-if-mismatch < "$p") || { echo "patch does not apply"; git -C /repo checkout -- .; exit 3; }
 ./check $id $tier > /tmp/seedtest.$$.out 2>&1; rc=$?
